@@ -703,12 +703,12 @@ func (obj *SparseFloat32Matrix) ITERATOR_FROM(i, j int) *SparseFloat32MatrixIter
   return &r
 }
 func (obj *SparseFloat32Matrix) JOINT_ITERATOR(b ConstMatrix) *SparseFloat32MatrixJointIterator {
-  r := SparseFloat32MatrixJointIterator{obj.ITERATOR(), b.ConstIterator(), -1, -1, Float32{}, nil}
+  r := SparseFloat32MatrixJointIterator{obj.ITERATOR(), b.ConstIterator(), -1, -1, Float32{}, nil, false}
   r.Next()
   return &r
 }
 func (obj *SparseFloat32Matrix) JOINT3_ITERATOR(b, c ConstMatrix) *SparseFloat32MatrixJoint3Iterator {
-  r := SparseFloat32MatrixJoint3Iterator{obj.ITERATOR(), b.ConstIterator(), c.ConstIterator(), -1, -1, Float32{}, nil, nil}
+  r := SparseFloat32MatrixJoint3Iterator{obj.ITERATOR(), b.ConstIterator(), c.ConstIterator(), -1, -1, Float32{}, nil, nil, false}
   r.Next()
   return &r
 }
@@ -738,13 +738,13 @@ type SparseFloat32MatrixJointIterator struct {
   i, j int
   s1 Float32
   s2 ConstScalar
+  ok bool
 }
 func (obj *SparseFloat32MatrixJointIterator) Index() (int, int) {
   return obj.i, obj.j
 }
 func (obj *SparseFloat32MatrixJointIterator) Ok() bool {
-  return !(obj.s1.ptr == nil || obj.s1.GetFloat32() == float32(0)) ||
-         !(obj.s2 == nil || obj.s2.GetFloat32() == float32(0))
+  return obj.ok
 }
 func (obj *SparseFloat32MatrixJointIterator) Next() {
   ok1 := obj.it1.Ok()
@@ -766,6 +766,9 @@ func (obj *SparseFloat32MatrixJointIterator) Next() {
       obj.s2 = obj.it2.GetConst()
     }
   }
+  // the iteration ends when no iterator delivered an element, elements
+  // with value zero must not terminate it
+  obj.ok = obj.s1.ptr != nil || obj.s2 != nil
   if obj.s1.ptr != nil {
     obj.it1.Next()
   }
@@ -800,6 +803,7 @@ func (obj *SparseFloat32MatrixJointIterator) Clone() *SparseFloat32MatrixJointIt
   r.j = obj.j
   r.s1 = obj.s1
   r.s2 = obj.s2
+  r.ok = obj.ok
   return &r
 }
 func (obj *SparseFloat32MatrixJointIterator) CloneJointIterator() MatrixJointIterator {
@@ -818,14 +822,13 @@ type SparseFloat32MatrixJoint3Iterator struct {
   s1 Float32
   s2 ConstScalar
   s3 ConstScalar
+  ok bool
 }
 func (obj *SparseFloat32MatrixJoint3Iterator) Index() (int, int) {
   return obj.i, obj.j
 }
 func (obj *SparseFloat32MatrixJoint3Iterator) Ok() bool {
-  return !(obj.s1.ptr == nil || obj.s1.GetFloat32() == 0.0) ||
-         !(obj.s2 == nil || obj.s2.GetFloat32() == 0.0) ||
-         !(obj.s3 == nil || obj.s3.GetFloat32() == 0.0)
+  return obj.ok
 }
 func (obj *SparseFloat32MatrixJoint3Iterator) Next() {
   ok1 := obj.it1.Ok()
@@ -863,6 +866,9 @@ func (obj *SparseFloat32MatrixJoint3Iterator) Next() {
       obj.s3 = obj.it3.GetConst()
     }
   }
+  // the iteration ends when no iterator delivered an element, elements
+  // with value zero must not terminate it
+  obj.ok = obj.s1.ptr != nil || obj.s2 != nil || obj.s3 != nil
   if obj.s1.ptr != nil {
     obj.it1.Next()
   }
